@@ -22,8 +22,11 @@ TRUSTED = [
     "correspondence on BasicAnnotationDb / GffAnnotationDb / GenbankAnnotationDb",
     "sqlite3 itself (storage, =, LIKE, IN, AND/OR evaluation) is modelled, not verified",
     "translator/c17_query2lean.py (single decision expressions of get_features_matching / get_records_matching / subset / "
-    "_get_records_matching / num_matches / GenbankAnnotationDb.get_feature_children / get_feature_parent -> Gen/C17Query.lean); "
-    "every generated definition is proved equal to its plain reading in Props/C17X.lean and used by Model/AnnotDbX.lean",
+    "_get_records_matching / num_matches / GenbankAnnotationDb.get_feature_children / get_feature_parent, the per-table copy of the "
+    "arguments in the table loops of the three query methods, the column / pattern of the mixin's get_feature_children "
+    "-> Gen/C17Query.lean); every generated definition is proved equal to its plain reading in Props/C17X.lean and used by "
+    "Model/AnnotDbX.lean",
+    "Model/AnnotDbHist.lean (register machine stepOp / runHistory): executed call by call by the ops correspondence",
     "hand-written extension Model/AnnotDbX.lean (rows without location, on_alignment, per-table arguments, GenBank add_records, "
     "children / parent), tied by the xq / gbadd / family correspondence",
 ]
@@ -38,7 +41,8 @@ ASSUMPTIONS = [
     "(the model-vs-real comparison does compare them)",
     "gff_load_block_independent assumes no feature lists the same span twice (duplicate rows of one ID are collapsed "
     "only across blocks: gff_blocks_duplicate_row_counter, replayed against the real loader by the correspondence)",
-    "copy/deepcopy/pickle/write+reload/to_json round trips are exercised against the multiset oracle, not modelled",
+    "copy/deepcopy/pickle/write+reload/to_json round trips: record-list models (Model/AnnotDbRoundTrip.lean, jsonRoundTripX) tied by the "
+    "roundtrip / xjson correspondence, and exercised against the multiset oracle",
     "GFF IDs are unique per feature (rows sharing an ID are one multi-span feature), as GFF3 requires; in multi-file "
     "(glob) loads the generated IDs are unique across the files as well (the same ID in two files is not probed)",
     "num_matches is compared with the scan for every argument subset incl. attributes (substring search, as in the "
@@ -48,8 +52,10 @@ ASSUMPTIONS = [
     "a GenBank feature whose location has no usable coordinates (`a^b`, remote accession, `(a.b)..c`) denotes a record "
     "without spans and without strand; it satisfies no coordinate window and is returned by window-less queries",
     "GenBank get_feature_children(name, start, stop) = records called `name` (biotype / exclude_biotype respected) lying "
-    "within [start, stop); get_feature_parent = records called `name` whose extent contains [start, stop); the GFF / Basic "
-    "variants (substring match on parent_id) are not checked",
+    "within [start, stop); get_feature_parent = records called `name` whose extent contains [start, stop)",
+    "GffAnnotationDb / BasicAnnotationDb get_feature_children(name, biotype) = records whose parent_id mentions `name` (sqlite "
+    "LIKE %name%: substring, ASCII case ignored, `_` any character) of the asked biotype; the start / stop it also accepts are "
+    "ignored by the code and by the oracle; the mixin's get_feature_parent is not checked (its answer depends on row order)",
     "names GenbankAnnotationDb makes up for features without /gene (<type>-<n>) are not compared by the spec-level oracle "
     "(the gbadd correspondence compares them exactly)",
 ]
@@ -1184,6 +1190,18 @@ def spec_check(ctx, budget):
                 qs = wq if len(wq) <= 40 else rng.sample(wq, 40)
                 for what, inp, want, got, sig in run_case(c2, scratch, out, rng, queries=qs, tag=f"o{i}"):
                     add_failure(out, "spec", what, inp, want, got, sig=sig)
+    # get_feature_children of GffAnnotationDb / BasicAnnotationDb against the scan of parent_id (own rng)
+    prng = ctx.subrng("mixin_children")
+    for case, rows, probes, real in mixin_children_cases(prng, scratch, 4 * budget, "mc"):
+        for kw, got in zip(probes, real):
+            want = mixin_children_oracle(rows, kw)
+            out["evaluations"] += 1
+            bump(out, "mixin_children", str(min(len(want), 3)))
+            if got != want:
+                add_failure(out, "spec", "get_feature_children differs from the scan of parent_id", dict(case=case, probe=kw), want, got,
+                            sig=f"family:mixin:{case['kind']}:children")
+            elif want and len(want) < len(rows):
+                out["nontrivial"].add(("mixin_children", json.dumps(kw, sort_keys=True), json.dumps(case["intent"])[:160]))
     # chains subset -> union -> update with copies after each step
     for i in range(10 * budget):
         cc = gen_chain_case(rng, plans[:6])
@@ -1570,6 +1588,44 @@ def _real_or_raise(fn):
         return f"raised {type(e).__name__}"
 
 
+def mixin_children_cases(rng, scratch, n, tag):
+    """GffAnnotationDb / BasicAnnotationDb with parent_id relations: GFF `Parent=` rows (ids that are substrings of each other
+    or differ by case / `_` only: ab0, AB0, a_b0, ab01 ...) plus add_feature(parent_id=...) rows incl. comma lists; probes =
+    a stored name / parent id, a piece of one, another case, a name not there x biotype x a window (which the mixin ignores).
+    Yields (case, rows with parent in table order, probes, real answers)"""
+    for i in range(n):
+        kind = ["gff", "basic", "gff"][i % 3]
+        case = _one_block(build_case(rng, kind, "gff" if kind == "gff" else "add", rng.choice([2, 3, 5])))
+        db = build_db(case, scratch, f"{tag}{i}")
+        pool = sorted({r["name"] for t in db.table_names for r in raw_rows(db, t) if r["name"]} | {"ab0", "AB0", "a_b0", "ab01", "g1"})
+        for k in range(rng.choice([1, 2, 4])):
+            a = rng.randint(0, 30)
+            pid = rng.choice([rng.choice(pool), ",".join(rng.sample(pool, 2)), rng.choice(pool).upper(), None])
+            db.add_feature(seqid=rng.choice(SEQIDS[:3]), biotype=rng.choice(BIOTYPES), name=f"u{k}", spans=[(a, a + rng.randint(1, 6))],
+                           strand=rng.choice(["+", "-"]), **({} if pid is None else dict(parent_id=pid)),
+                           **rng.choice([{}, dict(on_alignment=True)]))
+        rows = [dict(_xrow(r), parent=r["parent"]) for t in db.table_names for r in raw_rows(db, t)]
+        parents = sorted({p for r in rows if r["parent"] for p in r["parent"].split(",")})
+        probes = []
+        for _ in range(8):
+            base = rng.choice(parents) if parents and rng.random() < 0.8 else rng.choice(pool + ["nosuch"])
+            name = rng.choice([base, base, base[:-1] or base, base[1:] or base, base.swapcase(), base.replace("_", "x")])
+            kw = dict(name=name)
+            if rng.random() < 0.4:
+                kw["biotype"] = rng.choice(BIOTYPES + ["g%ne"])
+            if rng.random() < 0.4:
+                kw.update(start=rng.randint(0, 20), stop=rng.randint(21, 45))
+            probes.append(kw)
+        real = [_real_or_raise(lambda: srt(_xc(f, rec=False) for f in db.get_feature_children(**kw))) for kw in probes]
+        yield dict(case, parent_calls=True), rows, probes, real
+
+
+def mixin_children_oracle(rows, kw):
+    """records whose parent_id mentions `name` (sqlite LIKE %name%), of the asked biotype; the window plays no role"""
+    return srt(_xc(r, rec=False) for r in rows if r["parent"] is not None and sql_like(f"%{kw['name']}%", r["parent"])
+               and (kw.get("biotype") is None or col_match(kw["biotype"], r["biotype"])))
+
+
 def _x_correspondence(ctx, out, scratch):
     from . import c17_gb
 
@@ -1687,6 +1743,22 @@ def _x_correspondence(ctx, out, scratch):
                 add_failure(out, "corr", f"GenBank get_feature_{pr[0]} model differs from the real db", dict(case=case, probe=pr), mod, one, confirmed=False)
             elif one and not isinstance(one, str):
                 out["nontrivial"].add(("family", json.dumps(pr, sort_keys=True), json.dumps(case["intent"])[:120]))
+
+
+    # get_feature_children of the mixin (GffAnnotationDb / BasicAnnotationDb): parent_id LIKE %name%
+    reqs, metas = [], []
+    for case, rows, probes, real in mixin_children_cases(rng, scratch, ctx.budget(9, 60), "pc"):
+        reqs.append(("pchildren", dict(rows=rows, probes=probes)))
+        metas.append((case, probes, real))
+    for (case, probes, real), rep in zip(metas, ctx.driver.batch(reqs)):
+        for kw, one, m in zip(probes, real, rep):
+            out["evaluations"] += 1
+            mod = m if isinstance(m, str) else srt(_xc(r, rec=False) for r in m)
+            bump(out, "x_mixin_children", "raises" if isinstance(one, str) else str(min(len(one), 3)))
+            if mod != one:
+                add_failure(out, "corr", "mixin get_feature_children model differs from the real db", dict(case=case, probe=kw), mod, one, confirmed=False)
+            elif one and not isinstance(one, str):
+                out["nontrivial"].add(("pchildren", json.dumps(kw, sort_keys=True), json.dumps(case["intent"])[:120]))
 
 
 def _model_q(q):
